@@ -140,11 +140,11 @@ func (m *mParams) diffDeletion(p *prover.DeletionParameters) string {
 
 // number styles for the independent document writer
 const (
-	styleHexLower   = iota // 0x1f
-	styleHexUpper          // 0x1F
-	styleHexPadded         // 0x001f (leading zero digits)
-	styleHex64             // zero-padded to 64 digits
-	styleDecimal           // canonical decimal (accepted by the decoder's base-0 parsing; checked as "if accepted, equal")
+	styleHexLower  = iota // 0x1f
+	styleHexUpper         // 0x1F
+	styleHexPadded        // 0x001f (leading zero digits)
+	styleHex64            // zero-padded to 64 digits
+	styleDecimal          // canonical decimal (accepted by the decoder's base-0 parsing; checked as "if accepted, equal")
 	numStyles
 )
 
